@@ -51,6 +51,29 @@ func runC17(c *engine.Ctx) {
 	c17ShutdownCallback(c, r2, pmFns, table)
 	factoryF := c.P.Field("peermanager", "PeerManager", "createPeerProcess")
 
+	// R3d: the reference count counts connections: every connection's Connected and Disconnected notification is
+	// forwarded to the peer manager, unconditionally (one dropped Disconnected and the queue outlives the peer)
+	nfy := 0
+	for _, name := range []string{"Connected", "Disconnected"} {
+		f := c.P.Func("network", "libp2pGraphSyncNotifee", name)
+		if f == nil {
+			continue
+		}
+		nfy++
+		c.Analysed(engine.FuncName(f))
+		fwd := func(in ssa.Instruction) bool {
+			cc, ok := in.(*ssa.Call)
+			return ok && cc.Call.IsInvoke() && cc.Call.Method.Name() == name
+		}
+		ok, _ := engine.MustReachFromEntry(f, engine.LiftMust(fwd), nil)
+		c.Decide(r3, engine.FuncName(f)+"|forwards-every-notification", f.Pos(), ok,
+			"every "+name+" notification of a connection reaches the receiver",
+			"a "+name+" notification of a connection can be dropped before it reaches the receiver: the peer manager counts connections, so its count no longer returns to zero at the last disconnect (or a queue is shut down while a connection remains)")
+	}
+	if nfy == 0 {
+		c.AnchorMissing(r3, "network.libp2pGraphSyncNotifee.Connected / Disconnected")
+	}
+
 	// R3a: Startup only on the create path
 	nStart := 0
 	for _, f := range pmFns {
@@ -269,6 +292,49 @@ func runC17(c *engine.Ctx) {
 		}
 	})
 	c.Decide(r4, engine.FuncName(m.extract)+"|take-head", m.extract.Pos(), headOK, "takes builders[0] and keeps builders[1:] under buildersLk", "the extract step does not take the head of the builders list under the lock (messages would leave out of order)")
+	// nothing reorders the pending list: the list is only ever replaced by itself plus one at the tail, by itself minus
+	// the head, or by an order-preserving filter of itself; and no element is overwritten in place
+	for _, f := range m.fns {
+		for _, st := range engine.StoresTo([]*ssa.Function{f}, m.builders) {
+			if _, isAlloc := st.Addr.(*ssa.FieldAddr).X.(*ssa.Alloc); isAlloc {
+				continue // constructor literal
+			}
+			okShape, why := false, ""
+			switch v := engine.LocalValue(st.Val).(type) {
+			case *ssa.Call: // append(builders, x)
+				if b, isB := v.Call.Value.(*ssa.Builtin); isB && b.Name() == "append" && isLoadOfField(v.Call.Args[0], m.builders) {
+					okShape = true
+				}
+			case *ssa.Slice: // builders[1:]
+				if isLoadOfField(v.X, m.builders) && v.High == nil && v.Max == nil {
+					okShape = true
+				} else {
+					why = "the list is cut at the tail or re-sliced"
+				}
+			case *ssa.Const:
+				okShape = v.Value == nil // nil
+			}
+			if !okShape {
+				// an order-preserving filter: a local slice grown only by appending elements ranged over builders in order
+				okShape = isOrderedFilter(engine.LocalValue(st.Val), m.builders, map[ssa.Value]bool{})
+				if !okShape && why == "" {
+					why = "the list is replaced by something that is not append-at-tail, drop-head or an in-order filter of itself"
+				}
+			}
+			c.Decide(r4, engine.FuncName(f)+"|list-order-kept", st.Pos(), okShape,
+				"the pending list is replaced only by append-at-tail, drop-head or an in-order filter of itself",
+				"the pending list of messages can be reordered ("+why+"): messages would leave in an order other than the one they were queued in")
+		}
+		engine.Instrs(f, func(in ssa.Instruction) {
+			st, ok := in.(*ssa.Store)
+			if !ok {
+				return
+			}
+			if ia, isIA := st.Addr.(*ssa.IndexAddr); isIA && isLoadOfField(ia.X, m.builders) && !engine.IsNilConst(st.Val) {
+				c.Violate(r4, engine.FuncName(f)+"|element-overwritten", st.Pos(), "an element of the pending list is overwritten in place with another builder: the order in which messages leave no longer is the order in which they were queued")
+			}
+		})
+	}
 	// what is enqueued goes into the newest builder: the build function is applied to builders[len(builders)-1]
 	for _, f := range m.fns {
 		for _, ci := range engine.Calls(f) {
@@ -560,4 +626,68 @@ func fieldReadOf2(v ssa.Value) *types.Var {
 		return engine.FieldOf(fa)
 	}
 	return fieldReadOf(v)
+}
+
+// isOrderedFilter: v is a slice built from nothing (make / nil) by appending, one at a time, elements obtained by
+// ranging over the given field's slice — an in-order filter.
+func isOrderedFilter(v ssa.Value, field *types.Var, seen map[ssa.Value]bool) bool {
+	v = engine.Strip(v)
+	if seen[v] {
+		return true
+	}
+	seen[v] = true
+	switch x := v.(type) {
+	case *ssa.MakeSlice:
+		return true
+	case *ssa.Const:
+		return x.Value == nil
+	case *ssa.Phi:
+		for _, e := range x.Edges {
+			if !isOrderedFilter(e, field, seen) {
+				return false
+			}
+		}
+		return true
+	case *ssa.Call:
+		b, ok := x.Call.Value.(*ssa.Builtin)
+		if !ok || b.Name() != "append" || len(x.Call.Args) != 2 {
+			return false
+		}
+		if !isOrderedFilter(x.Call.Args[0], field, seen) {
+			return false
+		}
+		// the appended element comes from ranging over the field (Extract of Next over Range(load field)), or an
+		// indexed read builders[i] inside a counted loop
+		okElem := false
+		var elems []ssa.Value
+		if sl, ok := engine.Strip(x.Call.Args[1]).(*ssa.Slice); ok {
+			if al, ok := sl.X.(*ssa.Alloc); ok {
+				for _, r := range *al.Referrers() {
+					if ia, ok := r.(*ssa.IndexAddr); ok {
+						for _, rr := range *ia.Referrers() {
+							if s2, ok := rr.(*ssa.Store); ok {
+								elems = append(elems, engine.Strip(s2.Val))
+							}
+						}
+					}
+				}
+			}
+		}
+		for _, e := range elems {
+			if ex, ok := e.(*ssa.Extract); ok {
+				if nx, ok := ex.Tuple.(*ssa.Next); ok {
+					if rg, ok := nx.Iter.(*ssa.Range); ok && isLoadOfField(rg.X, field) {
+						okElem = true
+					}
+				}
+			}
+			if u, ok := e.(*ssa.UnOp); ok && u.Op == token.MUL {
+				if ia, ok := u.X.(*ssa.IndexAddr); ok && isLoadOfField(ia.X, field) {
+					okElem = true
+				}
+			}
+		}
+		return okElem
+	}
+	return false
 }
